@@ -227,7 +227,8 @@ loop:
 		}
 		return ftoken(f), len(s)
 	}
-	n, err := strconv.ParseInt(s, 0, 64)
+	// base 10: `010` is ten, there are no octal numbers in SQL
+	n, err := strconv.ParseInt(s, 10, 64)
 	if err != nil {
 		return token{}, -1
 	}
